@@ -537,5 +537,272 @@ def register(R):
 
     cmu.setup = multi_setup
 
+    # ================================================================== request tasks (_main)
+    R.external(None, upper=ExtSpec(returns=ExtT('str'), pure=True))   # str methods on opaque argument values
+    RFCq = f'{UT}:ReadFileChunk'
+
+    def splat_is(ev, st, m):
+        """the **kwargs of a client event is exactly the map value m (as it was at the call)."""
+        sp = ev.extra.get('splat')
+        if sp is None or not isinstance(m, Ref):
+            return False
+        mm = st.obj(m).meta
+        return sp['present'].eq(mm['present']) and sp['vals'].eq(mm['vals'])
+
+    def put_checks(c):
+        ev = exts(c.trace, 'client.put_object')
+        okk = len(ev) == 1 and set(k for k in ev[0].kwargs if k != '**') == {'Bucket', 'Key', 'Body'} \
+            and ev[0].kwargs['Bucket'] is c.a_bucket and ev[0].kwargs['Key'] is c.a_key and ev[0].kwargs['Body'] is c.a_fileobj
+        cl = calls(c.trace, 'ReadFileChunk.close')
+        return {
+            'one_put_object_with_the_body_bucket_key': (B(bool(okk)), ['C01', 'C10']),
+            'extra_args_forwarded_unmodified': (B(bool(okk) and splat_is(ev[0], c.old.st, c.a_extra_args)), ['C15']),
+            'no_other_request': (B(len([e for e in c.trace if e.kind == 'ext' and e.name.startswith('client.')]) == 1), ['C10', 'C15']),
+            'body_closed_afterwards': (B(len(cl) == 1 and bool(ev) and index_of(c.trace, cl[0]) > index_of(c.trace, ev[0])), ['C09']),
+        }
+
+    R.contract(f'{UP}:PutObjectTask._main', props=['C01', 'C09', 'C10', 'C15'],
+               params=dict(client=ExtT('client'), fileobj=ObjT(RFCq), bucket=ExtT('str'), key=ExtT('str'), extra_args=EXTRA),
+               checks=put_checks, raises={'Exception': lambda c: {}}, raise_when={'Exception': lambda c: None})
+
+    from .c05 import resp_get
+
+    def part_checks(c):
+        ev = exts(c.trace, 'client.upload_part')
+        okk = len(ev) == 1 and ev[0].extra.get('raised') is None and \
+            set(k for k in ev[0].kwargs if k != '**') == {'Bucket', 'Key', 'UploadId', 'PartNumber', 'Body'} \
+            and ev[0].kwargs['Bucket'] is c.a_bucket and ev[0].kwargs['Key'] is c.a_key and ev[0].kwargs['Body'] is c.a_fileobj \
+            and ev[0].kwargs['UploadId'] is c.a_upload_id and ev[0].kwargs['PartNumber'] is c.a_part_number
+        res = c.new.obj(c.result).items if isinstance(c.result, Ref) else {}
+        etag_ok = okk and isinstance(res.get('ETag'), Opaque) and z3.eq(res['ETag'].term, resp_get(ev[0].result.term, z3.StringVal('ETag')))
+        extra_keys = set(res) - {'ETag', 'PartNumber'}
+        pres, _ = _mapmeta(c.old.st, c.a_extra_args)
+        has_alg = z3.Select(pres, z3.StringVal('ChecksumAlgorithm'))
+        return {
+            'one_upload_part_for_this_part_number_and_body': (B(bool(okk)), ['C01', 'C05', 'C10']),
+            'extra_args_forwarded_unmodified': (B(bool(okk) and splat_is(ev[0], c.old.st, c.a_extra_args)), ['C15']),
+            'returns_etag_of_the_response_and_the_part_number': (B(bool(etag_ok) and res.get('PartNumber') is c.a_part_number), ['C01']),
+            'part_checksum_only_with_an_algorithm_in_use': (implies(B(len(extra_keys) > 0), has_alg), ['C01']),
+            'at_most_one_checksum_member': (B(len(extra_keys) <= 1), ['C01']),
+        }
+
+    def _mapmeta(st, m):
+        mm = st.obj(m).meta
+        return mm['present'], mm['vals']
+
+    R.contract(f'{UP}:UploadPartTask._main', props=['C01', 'C05', 'C10', 'C15'],
+               params=dict(client=ExtT('client'), fileobj=ObjT(RFCq), bucket=ExtT('str'), key=ExtT('str'),
+                           upload_id=ExtT('upload_id'), part_number=Int, extra_args=EXTRA),
+               checks=part_checks, raises={'Exception': lambda c: {}}, raise_when={'Exception': lambda c: None},
+               returns=ExtT('part'))
+
+    # ================================================================== copy
+    CST = f'{CP}:CopySubmissionTask'
+    CP_PARAMS = dict(client=ExtT('client'), config=ObjT(CFG), osutil=Any, request_executor=ExtT('bounded_executor'),
+                     transfer_future=ObjT(TF))
+    R.mark_inline(f'{CST}._get_head_object_request_from_copy_source', f'{CST}._extra_upload_part_args',
+                  f'{CST}._extra_complete_multipart_args', f'{CST}._get_transfer_size')
+    for q in ('_submit_copy_request', '_submit_multipart_request'):
+        R.contract(f'{CST}.{q}', params=dict(CP_PARAMS), raise_when={'Exception': lambda c: None},
+                   requires=lambda c: [('transfer_size_is_known', z3.Not(is_none(c.old.f(c.old.f(c.a_transfer_future, '_meta'), '_size'))))])
+
+    def map_arrays(eng, st, v):
+        """(present, vals) of a str-keyed map value: symbolic map or concrete dict with str keys."""
+        h = st.obj(v)
+        if h.kind == 'smap':
+            return h.meta['present'], h.meta['vals']
+        pres = z3.K(z3.StringSort(), z3.BoolVal(False))
+        vals = z3.K(z3.StringSort(), z3.Const('absent_val', U))
+        for k, x in h.items.items():
+            pres = z3.Store(pres, z3.StringVal(k), True)
+            vals = z3.Store(vals, z3.StringVal(k), eng.as_u_term(x, st))
+        return pres, vals
+
+    def head_map_inv(l):
+        eng = l.engine
+        mapping = eng.class_attr(eng.repo.cls(CST), 'EXTRA_ARGS_TO_HEAD_ARGS_MAPPING', l.st)[0].val
+        mapping = dict(l.st.obj(mapping).items)
+        ep, ev_ = l.ghost['present0'], l.ghost['vals0']
+        pos, idx = l.ghost['pos'], to_int_term(l.index)
+        hp, hv = map_arrays(eng, l.st, l.local('head_object_request'))
+        h0p, h0v = map_arrays(eng, l.pre, l.pre_local('head_object_request'))
+        dsts = sorted(set(mapping.values()))
+        out = {}
+        for src, dst in sorted(mapping.items()):
+            s_, d_ = z3.StringVal(src), z3.StringVal(dst)
+            visited = z3.And(z3.Select(ep, s_), pos(s_) < idx)
+            out[f'{src}_mapped_to_{dst}'] = z3.And(
+                z3.Select(hp, d_) == z3.Or(visited, z3.Select(h0p, d_)),
+                z3.Implies(visited, z3.Select(hv, d_) == z3.Select(ev_, s_)))
+        out['nothing_else_added'] = z3.ForAll([kk_], z3.Implies(z3.And([kk_ != z3.StringVal(d) for d in dsts]), z3.And(
+            z3.Select(hp, kk_) == z3.Select(h0p, kk_), z3.Select(hv, kk_) == z3.Select(h0v, kk_))))
+        return out
+
+    def cp_submit_checks(c):
+        tr = c.trace
+        single, multi = calls(tr, '_submit_copy_request'), calls(tr, '_submit_multipart_request')
+        head = exts(tr, 'client.head_object')
+        size0 = c.old.f(c.old.f(c.a_transfer_future, '_meta'), '_size')
+        size1 = optval(c.new.f(c.new.f(c.a_transfer_future, '_meta'), '_size'))
+        thr = c.old.f(c.a_config, 'multipart_threshold')
+        out = {
+            'exactly_one_mode': (B(len(single) + len(multi) == 1), ['C14', 'C04']),
+            # a size supplied by the user (e.g. during on_queued) suppresses the size-discovery request
+            'head_object_iff_size_unknown': (z3.If(is_none(size0), B(len(head) == 1), B(len(head) == 0)), ['C08', 'C10']),
+            'multipart_iff_size_at_least_threshold': ((size1 >= thr) if multi else (size1 < thr), ['C14']),
+        }
+        if head:
+            cargs = c.old.f(c.old.f(c.a_transfer_future, '_meta'), '_call_args')
+            out['head_object_goes_to_the_source_client'] = (B(head[0].recv is c.old.f(cargs, 'source_client')), ['C15'])
+            sp = head[0].extra.get('splat')
+            # C15: HeadObject receives Bucket/Key of the copy source plus exactly the mapped conditions / keys
+            eng = c.engine
+            mapping = dict(c.new.st.obj(eng.class_attr(eng.repo.cls(CST), 'EXTRA_ARGS_TO_HEAD_ARGS_MAPPING', c.new.st)[0].val).items)
+            ep, ev_ = map_arrays(eng, c.old.st, c.old.f(cargs, 'extra_args'))
+            cs = c.old.st.obj(c.old.f(cargs, 'copy_source')).items
+            if sp is not None:
+                conj = []
+                for src, dst in mapping.items():
+                    conj.append(z3.Select(sp['present'], z3.StringVal(dst)) == z3.Select(ep, z3.StringVal(src)))
+                    conj.append(z3.Implies(z3.Select(ep, z3.StringVal(src)), z3.Select(sp['vals'], z3.StringVal(dst)) == z3.Select(ev_, z3.StringVal(src))))
+                for k_, v_ in cs.items():
+                    conj.append(z3.And(z3.Select(sp['present'], z3.StringVal(k_)), z3.Select(sp['vals'], z3.StringVal(k_)) == eng.as_u_term(v_, c.new.st)))
+                names = [z3.StringVal(d) for d in set(mapping.values()) | set(cs)]
+                conj.append(z3.ForAll([kk_], z3.Implies(z3.And([kk_ != n for n in names]), z3.Not(z3.Select(sp['present'], kk_)))))
+                out['head_object_gets_source_bucket_key_and_mapped_arguments_only'] = (z3.And(conj), ['C15'])
+            else:
+                out['head_object_gets_source_bucket_key_and_mapped_arguments_only'] = (B(False), ['C15'])
+        return out
+
+    R.contract(
+        f'{CST}._submit', props=['C14', 'C15', 'C08', 'C04', 'C10'], params=dict(CP_PARAMS),
+        checks=cp_submit_checks, raises={'Exception': lambda c: {}},
+        loops={0: LoopSpec(invariant=head_map_inv, local_types={'head_object_request': EXTRA})},
+    )
+
+    def cp_single_checks(c):
+        sub = submits(c.trace)
+        okk = len(sub) == 1 and task_of(c, sub[0])[0] == 'CopyObjectTask' and is_final(c, sub[0]) \
+            and sub[0].extra['env']['executor'] is c.a_request_executor and is_none(sub[0].extra['env']['tag']) is not None
+        out = {'exactly_one_final_copy_object_task_to_the_request_executor': (B(bool(okk)), ['C04', 'C01', 'C10'])}
+        if len(sub) == 1:
+            mk = task_main_kwargs(c, sub[0])
+            cargs = c.old.f(c.old.f(c.a_transfer_future, '_meta'), '_call_args')
+            out['copies_the_users_source_to_the_users_destination'] = (B(
+                mk.get('copy_source') is c.old.f(cargs, 'copy_source') and mk.get('bucket') is c.old.f(cargs, 'bucket')
+                and mk.get('key') is c.old.f(cargs, 'key') and mk.get('client') is c.a_client
+                and mk.get('extra_args') is c.old.f(cargs, 'extra_args')), ['C01', 'C15'])
+            out['reports_the_whole_size'] = (B(mk.get('size') is c.old.f(c.old.f(c.a_transfer_future, '_meta'), '_size')), ['C09'])
+        return out
+
+    ccs = R.contracts[f'{CST}._submit_copy_request']
+    ccs.checks, ccs.raises, ccs.props = cp_single_checks, {'Exception': lambda c: {}}, ('C01', 'C04', 'C09', 'C10', 'C15')
+    ccs.setup = lambda eng, st, args, self_val: st.assume(z3.Not(st.obj(st.obj(args['transfer_future']).fields['_meta']).fields['_size'].is_none))
+
+    # ---- multipart copy
+    def cp_create_filter_inv(l):
+        eng = l.engine
+        bl = eng.class_attr(eng.repo.cls(CST), 'CREATE_MULTIPART_ARGS_BLACKLIST', l.st)[0].val
+        bl = list(l.st.obj(bl).items)
+        ep, ev_ = l.ghost['present0'], l.ghost['vals0']
+        pos, e, idx = l.ghost['pos'], l.ghost['enum'], to_int_term(l.index)
+        fp, fv = map_arrays(eng, l.st, l.local('create_multipart_extra_args'))
+        allowed = lambda k: z3.And([k != z3.StringVal(b) for b in bl])
+        return {
+            'kept_entries_are_unblocked_originals': z3.ForAll([kk_], z3.Implies(z3.Select(fp, kk_), z3.And(
+                z3.Select(ep, kk_), allowed(kk_), z3.Select(fv, kk_) == z3.Select(ev_, kk_), pos(kk_) < idx))),
+            'every_visited_unblocked_key_is_kept': z3.ForAll([jj_], z3.Implies(
+                z3.And(jj_ >= 0, jj_ < idx, allowed(z3.Select(e, jj_))), z3.Select(fp, z3.Select(e, jj_)))),
+        }
+
+    def cp_part_iteration(l0, l1, evs):
+        st1 = l1.st
+        env = st1.env
+        sub = [e for e in evs if e.kind == 'call' and e.name == f'{TC}.submit']
+        out = {'one_copy_part_task_per_part': (B(len(sub) == 1), ['C01', 'C05', 'C04'])}
+        if len(sub) != 1:
+            return out
+        task = st1.obj(sub[0].extra['env']['task'])
+        mk = st1.obj(task.fields['_main_kwargs']).items
+        pk = st1.obj(task.fields['_pending_main_kwargs']).items
+        pn = env['part_number']
+        k0 = l0.st.obj(l0.st.env['part_futures'])
+        n_before = to_int_term(k0.meta['len']) if k0.kind == 'slist' else z3.IntVal(len(k0.items))
+        size, ps = optval(st1.obj(st1.obj(env['transfer_future']).fields['_meta']).fields['_size']), env['part_size']
+        after = st1.obj(env['part_futures'])
+        out['part_number_is_count_so_far_plus_one'] = (to_int_term(pn) == n_before + 1, ['C01', 'C14'])
+        out['task_is_a_copy_part_task_not_final_waiting_for_the_upload_id'] = (B(
+            task.cls.name == 'CopyPartTask' and mk.get('part_number') is pn and task.fields['_is_final'] is False
+            and set(pk) == {'upload_id'} and pk['upload_id'] is env['create_multipart_future']
+            and sub[0].extra['env']['executor'] is env['request_executor']
+            and mk.get('copy_source') is st1.obj(env['call_args']).fields['copy_source']), ['C01', 'C05', 'C10'])
+        out['part_future_appended_to_the_parts_list'] = (z3.And(
+            to_int_term(after.meta['len']) == n_before + 1, z3.Select(after.meta['arr'], n_before) == sub[0].result.term), ['C01', 'C05'])
+        # byte range of the part: [c(k-1), min(ck, size)) as a closed CopySourceRange; reported size == its length
+        xp, xv = map_arrays(l1.engine, st1, mk['extra_args'])
+        from .c14 import range_term
+        lo = ps * (to_int_term(pn) - 1)
+        hi = z3.If(lo + ps < size, lo + ps, size)
+        out['copy_source_range_is_the_parts_window'] = (z3.And(
+            z3.Select(xp, z3.StringVal('CopySourceRange')),
+            z3.Select(xv, z3.StringVal('CopySourceRange')) == range_term(l1.engine, lo, hi - 1)), ['C01', 'C14'])
+        out['reported_part_size_is_the_range_length'] = (to_int_term(mk['size']) == hi - lo, ['C09', 'C01'])
+        return out
+
+    def cp_parts_inv(l):
+        h = l.st.obj(l.local('part_futures'))
+        n = to_int_term(h.meta['len']) if h.kind == 'slist' else z3.IntVal(len(h.items))
+        return {'one_future_per_part': n == to_int_term(l.index)}
+
+    def cp_multi_checks(c):
+        tr = c.trace
+        sub = submits(tr)
+        loops = [e for e in tr if e.kind == 'loop' and e.items and not isinstance(e.items[0], tuple)]
+        out = {}
+        okshape = len(sub) == 2 and len(loops) >= 1 and index_of(tr, sub[0]) < index_of(tr, loops[-1]) < index_of(tr, sub[1])
+        out['create_then_parts_then_complete'] = (B(bool(okshape)), ['C05', 'C04', 'C01'])
+        if not okshape:
+            return out
+        cr, cm = sub
+        env = c.new.st.env
+        out['create_task_first_not_final'] = (B(task_of(c, cr)[0] == 'CreateMultipartUploadTask' and not is_final(c, cr)), ['C05'])
+        pk = task_pending(c, cm)
+        out['complete_task_is_the_single_final_task'] = (B(task_of(c, cm)[0] == 'CompleteMultipartUploadTask' and is_final(c, cm)
+                                                           and cm.extra['env']['executor'] is c.a_request_executor), ['C05', 'C04', 'C10'])
+        out['complete_depends_on_create_and_on_every_part_in_order'] = (B(
+            set(pk) == {'upload_id', 'parts'} and pk['upload_id'] is cr.result and pk['parts'] is env['part_futures']), ['C05', 'C01', 'C04'])
+        size = optval(c.new.f(c.new.f(c.a_transfer_future, '_meta'), '_size'))
+        out['number_of_parts_is_ceil_size_over_part_size'] = (is_ceil_div(env['num_parts'], size, env['part_size']), ['C14', 'C01'])
+        adj = calls(tr, 'ChunksizeAdjuster.adjust_chunksize')
+        out['part_size_is_adjusted_configured_chunksize'] = (B(
+            len(adj) == 1 and adj[0].extra['env']['current_chunksize'] is c.old.f(c.a_config, 'multipart_chunksize')
+            and adj[0].result is env['part_size']), ['C14'])
+        # C15 wiring: create gets the unblocked arguments
+        eng = c.engine
+        cargs = c.old.f(c.old.f(c.a_transfer_future, '_meta'), '_call_args')
+        ep, ev_ = map_arrays(eng, c.old.st, c.old.f(cargs, 'extra_args'))
+        bl = list(c.new.st.obj(eng.class_attr(eng.repo.cls(CST), 'CREATE_MULTIPART_ARGS_BLACKLIST', c.new.st)[0].val).items)
+        fp, fv = map_arrays(eng, c.new.st, task_main_kwargs(c, cr)['extra_args'])
+        out['create_gets_exactly_the_unblocked_arguments'] = (z3.ForAll([kk_], z3.And(
+            z3.Select(fp, kk_) == z3.And(z3.Select(ep, kk_), z3.And([kk_ != z3.StringVal(b) for b in bl])),
+            z3.Implies(z3.Select(fp, kk_), z3.Select(fv, kk_) == z3.Select(ev_, kk_)))), ['C15'])
+        return out
+
+    jj_ = z3.Int('jj_')
+    ccm = R.contracts[f'{CST}._submit_multipart_request']
+    ccm.checks, ccm.raises = cp_multi_checks, {'Exception': lambda c: {}}
+    ccm.props = ('C01', 'C04', 'C05', 'C09', 'C10', 'C14', 'C15')
+    ccm.loops = {
+        0: LoopSpec(invariant=cp_create_filter_inv, local_types={'create_multipart_extra_args': EXTRA}),
+        1: LoopSpec(invariant=cp_parts_inv, local_types={'part_futures': FUTS}, iteration_checks=cp_part_iteration),
+    }
+
+    def cp_multi_setup(eng, st, args, self_val):
+        size = st.obj(st.obj(args['transfer_future']).fields['_meta']).fields['_size']
+        st.assume(z3.Not(size.is_none))
+        st.assume(size.val <= 5 * TiB)
+        st.assume(st.obj(args['config']).fields['multipart_chunksize'] < TWO53)
+    ccm.setup = cp_multi_setup
+
 
 SUBMIT_ROOTS = []
